@@ -825,9 +825,12 @@ def op_flip_check(st, o):
     nb = c - h
     how = o["how"]
     if how["kind"] == "bits":
+        before = bytes(data[h:c])
         for b in how["bits"]:
             b %= nb * 8
             data[h + b // 8] ^= 1 << (b % 8)
+        if bytes(data[h:c]) == before:
+            return "skipped"  # two flips of the same bit (after reduction modulo the width): nothing was damaged
     else:
         import struct
 
